@@ -18,6 +18,10 @@ use std::time::{Duration, Instant};
 // ------------------------------------------------------------ delay injector
 
 static DELAY_SEED: AtomicU64 = AtomicU64::new(0);
+/// ThreadSanitizer build: no callback is installed at all (a recorder that takes a
+/// mutex on every event would add happens-before edges and hide races), so the
+/// event-based stuck rule is off and only the result oracle is used.
+static TSAN_MODE: AtomicBool = AtomicBool::new(false);
 static CANCEL_AT_YIELD: AtomicU64 = AtomicU64::new(u64::MAX);
 static YIELD_NO: AtomicU64 = AtomicU64::new(0);
 static CANCEL_TOKEN: Mutex<Option<CancellationToken>> = Mutex::new(None);
@@ -229,11 +233,19 @@ fn analyse_log(log: &[rec::Rec]) -> (u64, u64, u64) {
 
 /// Run a built graph on MTGraph (mt=true) or Graph with blocks added in `order`.
 pub fn run_graph(built: BuiltGraph, order: &[usize], mt: bool, delay_seed: u64, min_calls: u64) -> RunOutcome {
-    rec::install(true);
+    let tsan = TSAN_MODE.load(Ordering::SeqCst);
+    let (delay_seed, min_calls) = if tsan { (0, u64::MAX / 2) } else { (delay_seed, min_calls) };
+    if tsan {
+        rec::uninstall();
+    } else {
+        rec::install(true);
+    }
     rec::set_record_yields(false);
     CANCELLED.store(false, Ordering::SeqCst);
     DELAY_SEED.store(delay_seed, Ordering::SeqCst);
-    rec::set_yield_handler(Some(Arc::new(yield_handler)));
+    if !tsan {
+        rec::set_yield_handler(Some(Arc::new(yield_handler)));
+    }
     let base_tasks = task_count();
     let stats: Vec<Arc<ProbeStats>> = built.blocks.iter().map(|b| b.1.clone()).collect();
     let sink = built.sink.clone();
@@ -259,7 +271,7 @@ pub fn run_graph(built: BuiltGraph, order: &[usize], mt: bool, delay_seed: u64, 
     let stuck = mon.stuck.load(Ordering::SeqCst);
     let watchdog = mon.watchdog.load(Ordering::SeqCst);
     let mut tasks_leaked = false;
-    if mt {
+    if mt && !tsan {
         drop(mtg);
         // thread table entries disappear slightly after join
         let t0 = Instant::now();
@@ -346,6 +358,9 @@ fn c05_case(c: &GCase, rep: &mut Report) -> Vec<(String, String)> {
     let mut prng = Rng::new(c.prog_seed);
     let p = gen_program(&mut prng, c.max_ops, true);
     let mut out = Vec::new();
+    // the sequential reference executor needs the event counter (also in the
+    // sanitizer build: it is single-threaded; run_graph removes the callback again)
+    rec::install(true);
     let reference = match reference(&p) {
         Ok(d) => d,
         Err(e) => {
@@ -823,9 +838,11 @@ pub fn main(opts: &Opts, prop: &str) -> Report {
     }
 
     let mut rng = Rng::new(opts.shard_seed() ^ fnv_str(prop));
+    let tsan = opts.val("variant").as_deref() == Some("tsan");
+    TSAN_MODE.store(tsan, Ordering::SeqCst);
     match prop {
         "C05" => {
-            let runs = opts.budget(16 * 120, 16 * 6000);
+            let runs = if tsan { opts.budget(16 * 10, 16 * 300) } else { opts.budget(16 * 120, 16 * 6000) };
             for k in 0..runs {
                 let c = GCase {
                     prog_seed: rng.next(),
